@@ -229,7 +229,11 @@ def create_configured_connection(database: str = ":memory:") -> duckdb.DuckDBPyC
     conn = duckdb.connect(
         database, config={"storage_compatibility_version": STORAGE_COMPATIBILITY_VERSION}
     )
-    configure_duckdb_connection(conn)
+    try:
+        configure_duckdb_connection(conn)
+    except Exception:
+        conn.close()
+        raise
     return conn
 
 
@@ -244,13 +248,17 @@ def configured_connection(database: str = ":memory:") -> Iterator[duckdb.DuckDBP
     if database == ":memory:" and not _use_in_memory_db():
         database = str(session_dir / "session.duckdb")
 
-    conn = create_configured_connection(database)
-    conn.execute(f"SET temp_directory = '{session_dir}'")
+    conn = None
     try:
+        # Creating/configuring the connection can fail (e.g. a rejected decimal setting): the
+        # session directory must not be left behind in that case either.
+        conn = create_configured_connection(database)
+        conn.execute(f"SET temp_directory = '{session_dir}'")
         yield conn
     finally:
         try:
-            conn.close()
+            if conn is not None:
+                conn.close()
         finally:
             shutil.rmtree(session_dir, ignore_errors=True)
 
